@@ -177,16 +177,23 @@ func (s *Solver) readResp() (string, error) {
 }
 
 // CheckSat flushes queued commands and runs (check-sat).
-func (s *Solver) CheckSat() (Result, error) {
+func (s *Solver) CheckSat() (Result, error) { return s.CheckSatAssuming("") }
+
+// CheckSatAssuming runs (check-sat-assuming (lit)) or (check-sat) when lit is empty.
+func (s *Solver) CheckSatAssuming(lit string) (Result, error) {
 	t0 := time.Now()
 	defer func() { s.Time += time.Since(t0); s.Queries++ }()
 	if err := s.flush(); err != nil {
 		return Unknown, err
 	}
-	if s.Log != nil {
-		io.WriteString(s.Log, "(check-sat)\n")
+	cmd := "(check-sat)\n"
+	if lit != "" {
+		cmd = "(check-sat-assuming (" + lit + "))\n"
 	}
-	if _, err := io.WriteString(s.in, "(check-sat)\n"); err != nil {
+	if s.Log != nil {
+		io.WriteString(s.Log, cmd)
+	}
+	if _, err := io.WriteString(s.in, cmd); err != nil {
 		s.dead = true
 		return Unknown, err
 	}
